@@ -17,6 +17,8 @@ fn engine(id: &str, tier: &str, replay: Option<&serde_json::Value>) -> Option<gv
         ("C18", Some(v)) => c18::replay(v),
         ("C19", None) => c19::run(tier),
         ("C19", Some(v)) => c19::replay(v),
+        ("C09", None) => c09::run(tier),
+        ("C09", Some(v)) => c09::replay(v),
         ("C04", None) => c04::run(tier),
         ("C04", Some(v)) => c04::replay(v),
         _ => return None,
@@ -62,6 +64,9 @@ fn main() {
         return;
     }
     match args.get(1).map(|s| s.as_str()) {
+        Some("c09-worker") => {
+            gv::engines::c09::worker_main(args.get(2).map(|s| s.as_str()).unwrap_or("quick"), args.get(3).map(|s| s.as_str()));
+        }
         Some("probe") => {
             record_panics();
             let bits: u32 = args.get(3).and_then(|s| s.parse().ok()).unwrap_or(6);
